@@ -184,7 +184,7 @@ func c17AbsCaptureTime(c *mc.Ctx) {
 	which := c.Pick(2)                  // which field runs over the 5^8 grid
 	top := c.Pick(125)                  // three symbols of the grid word; the remaining 5^5 swept inside
 	other := c.Pick(len(c17Others) + 1) // value of the other field; last = no offset (only when the timestamp sweeps)
-	prior := c.Pick(3)                  // 0 fresh, 1 used without offset, 2 used with offset
+	prior := c.Pick(6)                  // 0 fresh, 1 used without offset, 2 used with offset, 3-5 derived from the current value
 	if which == 1 && other == len(c17Others) {
 		other = 0
 	}
@@ -221,6 +221,20 @@ func c17AbsCaptureTime(c *mc.Ctx) {
 			_ = d.Unmarshal([]byte{9, 9, 9, 9, 9, 9, 9, 9})
 		case 2:
 			_ = d.Unmarshal([]byte{9, 9, 9, 9, 9, 9, 9, 9, 7, 7, 7, 7, 7, 7, 7, 7})
+		case 3, 4, 5:
+			// the receiver last decoded a value that agrees with the new one in one field:
+			// 3 same offset / other timestamp, 4 same timestamp / other offset, 5 the same value
+			pb := clone(b)
+			lo, hi := 0, 8
+			if prior == 4 {
+				lo, hi = 8, len(pb)
+			}
+			if prior != 5 {
+				for i := lo; i < hi; i++ {
+					pb[i] ^= 0xFF
+				}
+			}
+			_ = d.Unmarshal(pb)
 		}
 		if err := d.Unmarshal(b); err != nil {
 			c.Failf("abscapturetime-decode", "Unmarshal(%s): %v", hx(b), err)
@@ -229,7 +243,7 @@ func c17AbsCaptureTime(c *mc.Ctx) {
 			c.Failf("abscapturetime-decode", "Unmarshal(%s) prior=%d: timestamp %#x", hx(b), prior, d.Timestamp)
 		}
 		if (off == nil) != (d.EstimatedCaptureClockOffset == nil) || (off != nil && *off != *d.EstimatedCaptureClockOffset) {
-			c.Failf("abscapturetime-decode-offset", "Unmarshal(%s) into receiver state %d (0 fresh, 1 used without offset, 2 used with offset): offset %v, want %v",
+			c.Failf("abscapturetime-decode-offset", "Unmarshal(%s) into receiver state %d (0 fresh, 1 used without offset, 2 used with offset, 3 same offset other timestamp, 4 same timestamp other offset, 5 same value): offset %v, want %v",
 				hx(b), prior, fmtOff(d.EstimatedCaptureClockOffset), fmtOff(off))
 		}
 	}
@@ -257,7 +271,7 @@ func c17Lengths(c *mc.Ctx) {
 	}
 	n := c.Pick(maxLen+2) - 1 // -1: nil
 	pat := c.Pick(3)
-	prior := c.Pick(3)
+	prior := c.Pick(5) // 0 fresh, 1-2 fixed other content, 3-4 the current input with its first / last byte inverted
 	var in []byte
 	if n >= 0 {
 		in = make([]byte, n)
@@ -273,13 +287,23 @@ func c17Lengths(c *mc.Ctx) {
 		}
 	}
 	orig := clone(in)
+	pin := clone(in)
+	if len(pin) > 0 {
+		if prior == 3 {
+			pin[0] ^= 0xFF
+		} else {
+			pin[len(pin)-1] ^= 0xFF
+		}
+	}
 	c.Notef("codec %d Unmarshal(%s) prior=%d", codec, hx(in), prior)
 	ok := n >= size
 	var err error
 	switch codec {
 	case 0:
 		var d rtp.AudioLevelExtension
-		if prior > 0 {
+		if prior >= 3 {
+			_ = d.Unmarshal(pin)
+		} else if prior > 0 {
 			d = rtp.AudioLevelExtension{Level: 99, Voice: prior == 2}
 		}
 		err = d.Unmarshal(in)
@@ -288,7 +312,9 @@ func c17Lengths(c *mc.Ctx) {
 		}
 	case 1:
 		var d rtp.TransportCCExtension
-		if prior > 0 {
+		if prior >= 3 {
+			_ = d.Unmarshal(pin)
+		} else if prior > 0 {
 			d.TransportSequence = 0xABCD
 		}
 		err = d.Unmarshal(in)
@@ -297,7 +323,9 @@ func c17Lengths(c *mc.Ctx) {
 		}
 	case 2:
 		var d rtp.PlayoutDelayExtension
-		if prior > 0 {
+		if prior >= 3 {
+			_ = d.Unmarshal(pin)
+		} else if prior > 0 {
 			d = rtp.PlayoutDelayExtension{MinDelay: 4095, MaxDelay: 1}
 		}
 		err = d.Unmarshal(in)
@@ -308,7 +336,9 @@ func c17Lengths(c *mc.Ctx) {
 		}
 	case 3:
 		var d rtp.AbsSendTimeExtension
-		if prior > 0 {
+		if prior >= 3 {
+			_ = d.Unmarshal(pin)
+		} else if prior > 0 {
 			d.Timestamp = 0xFFFFFFFFFFFFFFFF
 		}
 		err = d.Unmarshal(in)
@@ -323,6 +353,8 @@ func c17Lengths(c *mc.Ctx) {
 			_ = d.Unmarshal([]byte{9, 9, 9, 9, 9, 9, 9, 9})
 		case 2:
 			_ = d.Unmarshal([]byte{9, 9, 9, 9, 9, 9, 9, 9, 7, 7, 7, 7, 7, 7, 7, 7})
+		case 3, 4:
+			_ = d.Unmarshal(pin)
 		}
 		err = d.Unmarshal(in)
 		if ok {
